@@ -2294,10 +2294,11 @@ package analysis
 
 // ---------------------------------------------------------------- flatten.go: RemoveUnused (C06)
 
-// defTarget(r, n): the $ref r designates the top-level definition named n: it has only a fragment, and its JSON pointer
-// decodes (URL- and pointer-unescaped by the dependency) to exactly the tokens ["definitions", n]
-//@ fun defTarget(r spec.Ref, n string) bool = r.HasFragmentOnly && len(r.GetPointer().DecodedTokens()) == 2 && r.GetPointer().DecodedTokens()[0] == "definitions" && r.GetPointer().DecodedTokens()[1] == n
-//@ ofun referenced(s *Spec, n string) bool = exists k in dom(s.references.schemas) :: defTarget(s.references.schemas[k], n)
+// defTarget(r, n): the $ref r designates the top-level definition named n, or a place inside it: it has only a fragment,
+// and its JSON pointer decodes (URL- and pointer-unescaped by the dependency) to tokens that start with ["definitions", n].
+// A definition is "referred to" when a $ref of any kind (schema, items, ...) does so: the property speaks of every $ref.
+//@ fun defTarget(r spec.Ref, n string) bool = r.HasFragmentOnly && len(r.GetPointer().DecodedTokens()) >= 2 && r.GetPointer().DecodedTokens()[0] == "definitions" && r.GetPointer().DecodedTokens()[1] == n
+//@ ofun referenced(s *Spec, n string) bool = exists k in dom(s.references.allRefs) :: defTarget(s.references.allRefs[k], n)
 
 //@ func removeUnusedSinglePass(opts)
 //@   aspect unused
@@ -2312,8 +2313,8 @@ package analysis
 //@   loop 1: invariant expected != nil && fresh(expected) && (forall k string :: (k in dom(expected)) <==> (k in seen)) && (forall k in seen :: k in dom(opts.Spec.spec.Definitions))
 //@   loop 2: modifies map expected, heap spec.Ref
 //@   loop 2: invariant expected != nil && fresh(expected)
-//@   loop 2: invariant forall n string :: (n in dom(expected)) <==> (n in dom(opts.Spec.spec.Definitions) && !(exists k in seen :: defTarget(opts.Spec.references.schemas[k], n)))
-//@   loop 2: invariant forall k in seen :: k in dom(opts.Spec.references.schemas)
+//@   loop 2: invariant forall n string :: (n in dom(expected)) <==> (n in dom(opts.Spec.spec.Definitions) && !(exists k in seen :: defTarget(opts.Spec.references.allRefs[k], n)))
+//@   loop 2: invariant forall k in seen :: k in dom(opts.Spec.references.allRefs)
 //@   loop 3: modifies map opts.Spec.spec.Definitions
 //@   loop 3: invariant forall n string :: (n in dom(opts.Spec.spec.Definitions)) <==> (old(n in dom(opts.Spec.spec.Definitions)) && !(n in seen))
 //@   loop 3: invariant forall n in dom(opts.Spec.spec.Definitions) :: opts.Spec.spec.Definitions[n] == old(opts.Spec.spec.Definitions[n])
